@@ -14,7 +14,7 @@ META = {
             'must be the register encoded in that instruction; (d) const items with constant expressions: consts[].value must equal the independent evaluator. '
             'distinct = hash(source text); non-trivial = script with >= 3 instructions',
     'assumptions': ['only finite constant values are judged (JSON cannot carry NaN / infinity)'],
-    'floors': {'scripts_offsets_matched': 200, 'labels_checked': 100, 'locals_checked': 100, 'consts_checked': 100, 'formats': 4},
+    'floors': {'furigana_scripts': 20, 'scripts_offsets_matched': 200, 'labels_checked': 100, 'locals_checked': 100, 'consts_checked': 100, 'formats': 4},
 }
 SIZES = {'quick': 900, 'thorough': 30000}
 
@@ -106,6 +106,36 @@ def offsets_case(ctx, r, tables):
     except L.LayoutError as e:
         ctx.violation('debuginfo:unparsable-output', str(e), replay)
     ctx.sample({'format': gf.kind + ':' + gf.game, 'scripts': len(dbg['exported-scripts']), 'instr_offsets': [i['offset'] for i in dbg['exported-scripts'][0]['instrs']][:12] if dbg['exported-scripts'] else []}, cap=2)
+
+def furigana_case(ctx, r):
+    """TH12+ MSG: a furigana line (`|...`) leaves bytes behind in the next text instruction (documented quirk), so instruction sizes depend
+    on the previous string; offsets in the debug info must still be those of the written file."""
+    class GF: pass
+    gf = GF(); gf.tool, gf.kind, gf.msg_mode = 'msg', 'msg', None
+    gf.game = r.pick(['th12', 'th13', 'th14', 'th15', 'th16', 'th17'])
+    lines = []
+    for k in range(r.randint(3, 9)):
+        if r.chance(0.25): lines.append('+%d:' % r.randint(1, 30))
+        if r.chance(0.25): lines.append('lab%d:' % k)
+        if r.chance(0.15): lines.append('ins_%d();' % r.pick([1, 2, 3]))
+        txt = ''.join(r.pick('abcdefghijklmno ') for _ in range(r.randint(0, 24)))
+        if r.chance(0.45): txt = '|' + r.pick(['0,6,', '1,2,', '']) + ''.join(r.pick('abcdefghij') for _ in range(r.randint(1, 40)))
+        lines.append('ins_%d("%s");' % (r.pick([15, 16, 17]), txt))
+    lines.append('lab_end:')
+    lines.append('ins_0();')
+    gf.text = 'meta { table: {0: {script: "s0"}} }\nscript s0 {\n%s\n}\n' % '\n'.join(lines)
+    c, data, dbg = compile_with_debug(ctx, gf.tool, gf.game, gf.text)
+    ctx.evaluations += 1
+    replay = {'text': gf.text, 'tool': gf.tool, 'game': gf.game}
+    if data is None:
+        if 'panic' in c: ctx.inconcl('compile crash (C04)')
+        else: ctx.count('rejected'); ctx.seen('furigana_reject_reasons', core.norm_msg(core.headline(c.get('diag', '')))[:60])
+        return
+    if not dbg or '_error' in dbg: ctx.violation('debuginfo:unreadable-json', str(dbg)[:200], replay); return
+    try:
+        if check_offsets(ctx, dbg, data, gf, replay): ctx.count('furigana_scripts')
+    except L.LayoutError as e:
+        ctx.violation('debuginfo:unparsable-output', str(e), replay)
 
 def labels_case(ctx, r):
     tool, game, bits = r.pick([('anm', 'th12', 16), ('ecl', 'th07', 32), ('std', 'th12', 32), ('msg', 'th08', 16), ('anm', 'th08', 16)])
@@ -255,8 +285,9 @@ def run_shard(ctx):
     tables = formats.SigTables(ctx)
     n = SIZES[ctx.tier] // ctx.nshards + 1
     for i in range(n):
-        k = r.wpick([('offsets', 5), ('labels', 2), ('locals', 2), ('consts', 1.5)])
-        if k == 'offsets': offsets_case(ctx, r, tables)
+        k = r.wpick([('offsets', 5), ('labels', 2), ('locals', 2), ('consts', 1.5), ('furigana', 1)])
+        if k == 'furigana': furigana_case(ctx, r)
+        elif k == 'offsets': offsets_case(ctx, r, tables)
         elif k == 'labels': labels_case(ctx, r)
         elif k == 'locals': locals_case(ctx, r)
         else: consts_case(ctx, r)
